@@ -9,6 +9,13 @@
 //!   `M <upd>;… | <upd>;…`   (either side may be `-`) build two `RelayLatencies` with
 //!                           `update_relay`, then `a.merge(&b)` and `b.merge(&a)`
 //!       upd   = `<h|4|6> <u> <lat>`
+//!   `Q <ops>`               end-to-end producers of QAD probe reports: a real net report client
+//!                           doing QUIC address discovery against an in-process relay; ops is a
+//!                           string over `R` (full report, is_major), `r` (incremental report),
+//!                           `b` (the client's UDP socket is replaced underneath the kept QAD
+//!                           connection — rebind / NAT remapping — and the harness waits, bounded,
+//!                           for the connection's observer to publish).  Addresses are printed as
+//!                           the index of the local socket they belong to (0 = first socket).
 //!   `<u>` is a relay index `0..=999` (mapped to `https://rNNN.iroh.test/`, so that the order
 //!   of the indices is the `Ord` of the `RelayUrl`s), `<lat>` a latency in nanoseconds (u64).
 //! output:
@@ -16,6 +23,9 @@
 //!       https=<tbl> v4=<tbl> v6=<tbl> get=<tbl> iter=<k:u:lat,…|->`
 //!   M: `ab https=<tbl> v4=<tbl> v6=<tbl> get=<tbl> ba https=<tbl> v4=<tbl> v6=<tbl> get=<tbl>`
 //!   `<tbl>` = `u:lat,u:lat,…` in key order, `-` when empty.
+//!   Q: one token per op: `g<idx|none|x>:<n|t|f>` for a report (global_v4 as socket index,
+//!      mapping_varies_by_dest_ipv4), `p<idx|x>` for a rebind (address carried by the report the
+//!      kept connection's observer published), `p-` if no QAD connection is kept.
 //!   Anything unparsable: `bad-input`.
 use std::collections::BTreeMap;
 use std::net::{Ipv4Addr, Ipv6Addr, SocketAddr, SocketAddrV4, SocketAddrV6};
@@ -26,7 +36,10 @@ use iroh::unstable_net_report::{NetReport, Probe, RelayLatencies};
 use iroh::verif_hooks::net_report as hooks;
 use vcommon::*;
 
-struct C27;
+struct C27 {
+    /// multi-thread runtime + in-process relay for the `Q` mode, started on first use
+    qad: Option<(tokio::runtime::Runtime, iroh::RelayMap, iroh_relay::server::Server)>,
+}
 
 const MAX_URL: u64 = 999;
 
@@ -331,6 +344,115 @@ fn exec_report(ps: &[ProbeRep]) -> Exec {
     ex
 }
 
+impl C27 {
+    fn exec_qad(&mut self, ops: &str) -> Exec {
+        if self.qad.is_none() {
+            let rt = tokio::runtime::Builder::new_multi_thread()
+                .worker_threads(2)
+                .enable_all()
+                .build()
+                .expect("runtime");
+            let (map, _url, server) = rt
+                .block_on(iroh::test_utils::run_relay_server())
+                .expect("in-process relay");
+            self.qad = Some((rt, map, server));
+        }
+        let (rt, map, _server) = self.qad.as_ref().unwrap();
+        let map = map.clone();
+        let ops: Vec<char> = ops.chars().collect();
+        rt.block_on(async move {
+            let mut ex = Exec::default();
+            let mut sc = match hooks::QadScenario::new(map) {
+                Ok(sc) => sc,
+                Err(e) => {
+                    ex.infra = Some(format!("cannot create the QUIC endpoint: {e}"));
+                    return ex;
+                }
+            };
+            let mut socks: Vec<SocketAddr> = vec![sc.local_addr().expect("local addr")];
+            let mut outs: Vec<String> = Vec::new();
+            let idx = |socks: &[SocketAddr], a: SocketAddr| {
+                socks.iter().position(|s| *s == a).map(|i| i.to_string()).unwrap_or_else(|| "x".into())
+            };
+            for (i, op) in ops.iter().enumerate() {
+                match op {
+                    'r' | 'R' => {
+                        let rep = match tokio::time::timeout(
+                            Duration::from_secs(20),
+                            sc.get_report(*op == 'R'),
+                        )
+                        .await
+                        {
+                            Ok(r) => r,
+                            Err(_) => {
+                                ex.infra = Some(format!("op {i}: get_report did not finish in 20 s"));
+                                break;
+                            }
+                        };
+                        let Some(g) = rep.global_v4 else {
+                            // loopback QAD did not answer at all: nothing to judge
+                            ex.infra = Some(format!("op {i}: no QAD answer from the in-process relay"));
+                            break;
+                        };
+                        outs.push(format!(
+                            "g{}:{}",
+                            idx(&socks, SocketAddr::V4(g)),
+                            ob(rep.mapping_varies_by_dest_ipv4)
+                        ));
+                        // oracle: the relay can only have observed the socket we send from now
+                        let cur = *socks.last().unwrap();
+                        if SocketAddr::V4(g) != cur {
+                            ex.violation(
+                                "stale-observed-address",
+                                format!("op {i}: report says global_v4 = {g} but the client sends from {cur}"),
+                            );
+                        }
+                        if rep.mapping_varies_by_dest_ipv4 == Some(true) {
+                            ex.violation("mapping-varies", format!("op {i}: one relay, one address, but varies"));
+                        }
+                    }
+                    'b' => {
+                        let had_conn = sc.has_v4_conn();
+                        let new = match sc.rebind() {
+                            Ok(a) => a,
+                            Err(e) => {
+                                ex.infra = Some(format!("op {i}: rebind failed: {e}"));
+                                break;
+                            }
+                        };
+                        socks.push(new);
+                        if !had_conn {
+                            outs.push("p-".into());
+                            continue;
+                        }
+                        match sc.wait_published(Duration::from_secs(10)).await {
+                            Some(a) => {
+                                outs.push(format!("p{}", idx(&socks, a)));
+                                if a != new {
+                                    ex.violation(
+                                        "stale-observed-address",
+                                        format!("op {i}: relay observed {new}, the kept connection published a report for {a}"),
+                                    );
+                                }
+                            }
+                            None => {
+                                ex.infra = Some(format!("op {i}: no observation within 10 s after the rebind"));
+                                break;
+                            }
+                        }
+                    }
+                    _ => unreachable!(),
+                }
+            }
+            sc.shutdown().await;
+            ex.out = outs.join(" ");
+            ex.nontrivial = ops.contains(&'b') && ops.len() >= 3;
+            ex.tags.push("Q-end-to-end".into());
+            ex
+        })
+    }
+}
+
 fn bucket(n: usize) -> &'static str {
     match n {
         0 => "0",
@@ -527,6 +649,19 @@ impl Prop for C27 {
         ] {
             out.push(s.to_string());
         }
+        // end-to-end QAD scenarios (real sockets: a small, fixed budget)
+        for s in ["Q r", "Q rbr", "Q rbbr", "Q rbRbr", "Q brbr", "Q rrbrr", "Q RbR", "Q rbrbr", "Q", "Q x", "Q rbq"] {
+            out.push(s.to_string());
+        }
+        let nq = if tier == Tier::Thorough { 60 } else { 12 };
+        for _ in 0..nq {
+            let len = rng.range(2, 7);
+            let mut ops = String::from("r");
+            for _ in 0..len {
+                ops.push(*rng.pick(&['r', 'r', 'b', 'b', 'R']));
+            }
+            out.push(format!("Q {ops}"));
+        }
         let maxlen = if tier == Tier::Thorough { 24 } else { 20 };
         while out.len() < n {
             match rng.below(20) {
@@ -550,6 +685,13 @@ impl Prop for C27 {
     fn execute(&mut self, payload: &str) -> Exec {
         let bad = || Exec::new("bad-input").tag("bad-input");
         let p = payload.trim();
+        if let Some(rest) = p.strip_prefix("Q ") {
+            let ops = rest.trim();
+            if ops.is_empty() || ops.len() > 12 || !ops.chars().all(|c| matches!(c, 'r' | 'R' | 'b')) {
+                return bad();
+            }
+            return self.exec_qad(ops);
+        }
         if let Some(rest) = p.strip_prefix("R ") {
             match parse_seq(rest, true) {
                 Some(ps) => exec_report(&ps),
@@ -571,5 +713,5 @@ impl Prop for C27 {
 }
 
 fn main() {
-    run(C27);
+    run(C27 { qad: None });
 }
